@@ -18,6 +18,17 @@ MAX_CONCRETE_ITERS = 300
 MAX_STATES = 20000
 
 
+def pred_status(st, pairs):
+    """True if all pairs are known equal, False if some pair is known unequal, None otherwise."""
+    eq = 0
+    for a, b in pairs:
+        if st.canon(a) == st.canon(b):
+            eq += 1
+        elif st.known_neq(a, b):
+            return False
+    return True if eq == len(pairs) else None
+
+
 def negate(t):
     k = t[0]
     if k == 'eq':
@@ -70,6 +81,7 @@ class Interp(object):
         self.functions_seen = set()
         self.max_states = 0
         self.tracked = ()       # terms whose domain is part of state identity
+        self.tracked_preds = {}  # name -> [(a, b)]: 6-byte style equality predicates kept across merges
         self.recursive_fns = set()
         for ix in prog.index.values():
             for name, fn in ix.functions.items():
@@ -111,6 +123,14 @@ class Interp(object):
         """outs: list of (state, control). Merge identical states."""
         if len(outs) < 2:
             return outs
+        if self.tracked_preds:
+            for st, _ in outs:
+                for name, pairs in self.tracked_preds.items():
+                    if ('pred:' + name) in st.tags:
+                        continue
+                    stt = pred_status(st, pairs)
+                    if stt is not None:
+                        st.tags['pred:' + name] = stt
         groups = {}
         order = []
         # cheap pre-grouping: full signatures are only computed where a merge is possible
